@@ -66,9 +66,9 @@ type unres struct {
 }
 
 type srcFile struct {
-	rel     string
-	dir     string // package directory, relative
-	ast     *ast.File
+	rel      string
+	dir      string // package directory, relative
+	ast      *ast.File
 	errNames map[string]bool // local names of the library's errors package in this file
 	inErrors bool            // the file belongs to package errors itself
 	dotErr   bool            // the errors package is dot-imported (not supported: reported as unresolved)
